@@ -370,20 +370,18 @@ func (b *baseExecutor) buildLockKey(records *types.RecordImage, meta types.Table
 			lockKeys.WriteString(",")
 		}
 		pkSplitIndex := 0
-		for _, column := range row.Columns {
-			var hasKeyColumn bool
-			for _, key := range keys {
+		// key parts follow the primary-key order of the table, whatever order the
+		// image lists its columns in: the same row always gives the same key text
+		for _, key := range keys {
+			for _, column := range row.Columns {
 				if column.ColumnName == key {
-					hasKeyColumn = true
 					if pkSplitIndex > 0 {
 						lockKeys.WriteString("_")
 					}
 					lockKeys.WriteString(fmt.Sprintf("%v", column.Value))
 					pkSplitIndex++
+					filedSequence++
 				}
-			}
-			if hasKeyColumn {
-				filedSequence++
 			}
 		}
 	}
